@@ -127,7 +127,9 @@ def run (case impl : String) : String :=
       | .error (.info .parse) => "err parse"
       | .error (.info .zeroShards) => "err zeroShards"
       | .error (.info .shardOutOfRange) => "err shardOutOfRange"
-    | ["features", "plain", a, b, c, p, pssl] =>
+    | [kind, "plain", a, b, c, p, pssl] =>
+      -- `features6`: the same over IPv6 loopback
+      if kind != "features" && kind != "features6" then "bad-case" else
       let o : Supported := ⟨entryWord a, entryWord b, entryWord c, entryWord p, entryWord pssl⟩
       let info := match shardInfoOf o with
         | some si => s!"{si.shard}/{si.nrShards}/{si.msbIgnore}"
@@ -168,6 +170,12 @@ def run (case impl : String) : String :=
       match n.toNat?, s.toNat?, lo.toNat?, hi.toNat?, reuse.toNat?, parseNatList inuse, parseNatList taken, parseNatList broken with
       | some n, some s, some lo, some hi, some reuse, some inuse, some taken, some broken =>
         connCheck n s lo hi (reuse != 0) inuse taken broken impl
+      | _, _, _, _, _, _, _, _ => "bad-case"
+    | ["conn6", n, s, lo, hi, reuse, inuse, taken, broken, loc] =>
+      -- the same loop over IPv6 loopback (`local` = `lo`: local_ip_address Some(::1); `any`: None): one model
+      match n.toNat?, s.toNat?, lo.toNat?, hi.toNat?, reuse.toNat?, parseNatList inuse, parseNatList taken, parseNatList broken with
+      | some n, some s, some lo, some hi, some reuse, some inuse, some taken, some broken =>
+        if loc == "lo" || loc == "any" then connCheck n s lo hi (reuse != 0) inuse taken broken impl else "bad-case"
       | _, _, _, _, _, _, _, _ => "bad-case"
     | ["sess", n, lo, hi, reuse, inuse, taken] =>
       match n.toNat?, lo.toNat?, hi.toNat?, reuse.toNat?, parseNatList inuse, parseNatList taken with
